@@ -681,6 +681,11 @@ class Task:
         for ch in self.children:
             ch._attach(wbs)
 
+    def _detach(self):
+        self.__wbs = None
+        for ch in self.children:
+            ch._detach()
+
     @property
     def id(self) -> Union[int, str]:
         return self.__id
@@ -813,6 +818,7 @@ class Task:
                 raise RuntimeError(f"Task {ch.id} or its children are linked with task {self.id} or its parents. "
                                    f"Can't make predecessor or successor a child")
 
+        old_children = [v for v in self.__children]
         for v in self.__children:
             v.__parent = None
 
@@ -820,6 +826,11 @@ class Task:
 
         for v in value:
             v.parent = self
+
+        # Tasks removed from children list are not in WBS anymore
+        for v in old_children:
+            if v.__parent is None:
+                v._detach()
 
     @property
     def all_children(self) -> _ImmutableTaskList:
